@@ -256,6 +256,7 @@ where
                                 extra_asserts: vec![format!("(assert (or {}))", ds.iter().map(|d| format!("(not (= t{} 0.0))", d.id)).collect::<Vec<_>>().join(" "))],
                                 late_degree: deg,
                                 raw: vec![],
+                                n_syntactic: 0,
                             }
                         });
                         job.groups.push(g);
